@@ -339,8 +339,8 @@ impl Check for C18 {
     }
     fn episodes(&self, tier: Tier) -> u64 {
         match tier {
-            Tier::Quick => 16_000,
-            Tier::Thorough => 800_000,
+            Tier::Quick => 200_000,
+            Tier::Thorough => 10_000_000,
         }
     }
 
